@@ -1059,15 +1059,22 @@ impl Brc20ProgDatabase {
 
 #[cfg(feature = "verif-hooks")]
 impl Brc20ProgDatabase {
-    /// Raw contents of every versioned table: (name, value column, persisted histories, in-memory histories).
+    /// Contents of every versioned table: (name, value column, persisted histories, in-memory histories),
+    /// histories decoded into (block, encoded value) versions.
     pub fn verif_dump_tables(
         &self,
-    ) -> Vec<(String, Vec<(Vec<u8>, Vec<u8>)>, Vec<(Vec<u8>, Vec<u8>)>, Vec<(Vec<u8>, Vec<u8>)>)> {
+    ) -> Vec<(
+        String,
+        Vec<(Vec<u8>, Vec<u8>)>,
+        Vec<(Vec<u8>, Vec<(u64, Option<Vec<u8>>)>)>,
+        Vec<(Vec<u8>, Vec<(u64, Option<Vec<u8>>)>)>,
+    )> {
         let mut out = Vec::new();
         macro_rules! dump {
             ($field:ident) => {
                 if let Some(t) = self.$field.as_ref() {
-                    let (db, cdb, cache) = t.verif_dump();
+                    let (db, _, _) = t.verif_dump();
+                    let (cdb, cache) = t.verif_histories();
                     out.push((t.verif_name().to_string(), db, cdb, cache));
                 }
             };
